@@ -3,20 +3,20 @@
 import json, sys
 claimed = {
  "C01": ("exploration", "4 C01", "seeded simulation: single-client protocol worlds vs reference map"),
- "C02": ("exploration", "4 C02", "seeded simulation: clean shutdown/reopen racing background tasks, index-file subsets deleted, vs reference map"),
- "C03": ("exploration", "4 C03", "seeded simulation: public GC on generated multi-file layouts, restarts, vs reference map"),
+ "C02": ("exploration", "4 C02", "seeded simulation: clean shutdown/reopen racing background tasks, index-file subsets deleted or the tree dump truncated, histories with and without GC passes, vs reference map"),
+ "C03": ("exploration", "4 C03", "seeded simulation: public GC (also cancelled in the middle of a source file) on generated multi-file layouts, restarts, vs reference map"),
  "C04": ("exploration", "4 C04", "seeded schedules (random walk / PCT / spawn delay) of 2..16 client tasks with real flusher and hint dumper; per-key linearizability (porcupine) against a versioned register + value attribution + final state"),
- "C05": ("exploration", "4 C05", "C04 plus one public GC pass (optional cancel) under seeded schedules; reads overlapping a pass may miss; final state and clean restart checked"),
- "C17": ("exploration", "4 C17", "arbitrary GC arguments on generated layouts checked on the disk-seam event log and inventories; two competing GC requests under seeded schedules with a pass-overlap detector"),
+ "C05": ("exploration", "4 C05", "C04 plus one public GC pass under seeded schedules, with client writes, slow readers and cancel requests placed inside the pass and, in part of the worlds, the pass requested right after a restart (racing the background hint loader); reads overlapping a pass may fail but not miss; final state and clean restart checked"),
+ "C17": ("exploration", "4 C17", "arbitrary GC arguments on generated layouts checked on the disk-seam event log and inventories; a storm of competing GC requests (some preceded by a cancel) under seeded schedules with a pass-overlap detector"),
  "C06": ("fault_enumeration", "4 C06", "crash (SIGKILL) at file-system mutation boundaries of simulated histories + torn data writes; every snapshot recovered and read back; independent durable-log scan as oracle"),
- "C07": ("fault_enumeration", "4 C07", "crash at every file-system mutation boundary inside simulated GC passes + torn relocation writes; recovery vs pre-pass model state"),
+ "C07": ("fault_enumeration", "4 C07", "crash at every file-system mutation boundary inside simulated GC passes + torn relocation writes, with client writes placed inside the pass or a clean shutdown started in the middle of it; recovery vs pre-pass model state (keys written during the pass: kill oracle of C06)"),
  "C08": ("exploration", "4 C08", "pairs of simulated worlds with equal content and different histories: complete listing walks compared; plus recomputation of listings from the reference model inside every world"),
  "C11": ("exploration", "4 C11", "grammar-generated and mutated byte streams delivered by the network simulator (fragmentation, delays, truncation with close or half-open silence) on 1..3 connections; independent reference parser predicts the reply sequence; bounded liveness by sentinel commands"),
  "C12": ("exploration", "4 C12", "C11 streams on 1..8 connections with connection drops at arbitrary bytes and slow-client stalls; counters never negative; tokens and the four buffer counters exactly zero at quiescence"),
- "C13": ("exploration", "4 C13", "C01/C02/C03 histories over key groups forced onto one key hash (hash override seam), gets compared with an independent-keys reference map"),
- "C09": ("fault_enumeration", "4 C09", "independent decode of data files vs the model's append log; corruption faults (bit flips, byte overwrites, zeroed blocks, truncations, forged size fields) enumerated over record positions; positional and rescan reads after restart vs independent resynchronising scanner"),
+ "C13": ("exploration", "4 C13", "C01/C02/C03 histories over key groups forced onto one key hash (hash override seam), gets compared with an independent-keys reference map; a third of the worlds are benign (no operation through which a recorded finding can act) and absorb nothing"),
+ "C09": ("fault_enumeration", "4 C09", "independent decode of data files vs the model's append log; corruption faults (bit flips, byte overwrites, zeroed blocks, truncations, forged size fields) enumerated over record positions; positional and rescan reads after restart vs independent resynchronising scanner; GC over the damaged files and another restart must not change any read"),
  "C10": ("exploration", "4 C10", "seeded simulation: threshold values through buffer/disk/restart/GC vs reference map and reference value hash"),
- "C15": ("exploration", "4 C15", "seeded simulation: disk-seam observation of every append vs reference routing, served/unserved subsets"),
+ "C15": ("exploration", "4 C15", "seeded simulation: disk-seam observation of every append vs reference routing, served/unserved subsets, route changes at restarts and on the running process (ChangeRoute)"),
  "C18": ("exploration", "4 C18", "seeded simulation: independent scan of surviving files after GC vs the model's current records"),
 }
 texts = {
